@@ -18,6 +18,9 @@ import sys
 
 VERIF = os.path.dirname(os.path.dirname(os.path.abspath(__file__)))
 ALL = ['C%02d' % i for i in range(1, 21)]
+REPO = os.environ.get('VERIF_REPO', '/repo')      # a scratch clone lets several evaluations run at once
+import tempfile
+EVDIR = tempfile.mkdtemp(prefix='o1722v-ev-eval-')
 
 
 def sh(cmd, cwd=None, timeout=1800):
@@ -82,16 +85,16 @@ def main():
         print(json.dumps(meta, indent=1))
         return 1
     # 3. run the checks against /repo with the patch applied
-    rc, out = sh('git -C /repo status --porcelain --untracked-files=no')
+    rc, out = sh('git -C %s status --porcelain --untracked-files=no' % REPO)
     if out.strip():
-        raise SystemExit('/repo has uncommitted changes; refusing to apply a seeded patch')
-    rc, out = sh('git -C /repo apply %s' % patch)
+        raise SystemExit(REPO + ' has uncommitted changes; refusing to apply a seeded patch')
+    rc, out = sh('git -C %s apply %s' % (REPO, patch))
     if rc:
         raise SystemExit('patch does not apply to /repo: ' + out)
     results = {}
     try:
         for c in checks:
-            rc, out = sh('VERIF_EVIDENCE_DIR=/tmp/o1722v-ev-eval VERIF_TIME_BUDGET=300 ./check %s --tier quick' % c, cwd=VERIF, timeout=400)
+            rc, out = sh('VERIF_EVIDENCE_DIR=%s VERIF_TIME_BUDGET=400 ./check %s --tier quick' % (EVDIR, c), cwd=VERIF, timeout=500)
             viol = [l for l in out.split('\n') if l.startswith('VIOLATION')]
             first = ''
             lines = out.split('\n')
@@ -102,7 +105,8 @@ def main():
             und = [l for l in lines if l.startswith('UNDECIDED') or l.startswith('ANALYSIS-BROKEN')]
             results[c] = {'exit': rc, 'violations': len(viol), 'first': first, 'undecided': und[:2]}
     finally:
-        sh('git -C /repo checkout -- .')
+        sh('git -C %s checkout -- .' % REPO)
+        shutil.rmtree(EVDIR, ignore_errors=True)
     meta['checks'] = results
     meta['caught_by'] = sorted(c for c, r in results.items() if r['exit'] == 1)
     meta['broken_by'] = sorted(c for c, r in results.items() if r['exit'] == 2)
